@@ -1,5 +1,191 @@
-import RSVerif.Basic
-/- C06: line-protocol driver (stub) -/
+import RSVerif.Model.Filter
+/-
+Line protocol for C06: what the SPECIFICATION (`Spec.Filter.excluded` & co.) predicts for each case of
+go/harness/c06.go. Case kinds:
+
+  unit   <cfg> <db> <key> <slot> <cmd>    the four predicates of filter.go            -> spec clauses
+  path   <cfg> tdb=<target.db> ls=<slot of "lua"> E=<entries> S=<stream>
+         the real loops of full sync / restore / rump (fetch side) / incremental sync   -> spec
+         after " | ": the as-coded model's count of Lua scripts (deviation D10) and which clause drops them
+  rump   <cfg> tdb=<n> E=<entries>                a complete rump executor                      -> spec
+  tail   <cfg> S=<stream>                  restore mode's command tail; " | " as-coded model
+  rawslot sl=<list> <slot> / rawcmd lua=<b> <cmd>
+         inputs OUTSIDE the specification's domain (unparsable slot entries, non-ASCII names):
+         model-fidelity stream, the line is the as-coded model's answer.
+
+<cfg> = kb=<l> kw=<l> db=<l> dw=<l> sl=<l> lua=<0|1>;  <l> = `_` (empty list) or comma-separated hex
+strings (`-` = empty string).  Core Lean only.
+-/
 namespace RSVerif.Drive.C06
-def handle (_line : String) : String := "unimplemented"
+open RSVerif RSVerif.Spec.Filter RSVerif.Filter
+
+def parseList (s : String) : Option (List Bytes) :=
+  if s == "_" then some [] else (s.splitOn ",").mapM ofHex
+
+def bit (b : Bool) : String := if b then "1" else "0"
+
+def field? (pre : String) (s : String) : Option String :=
+  if s.startsWith pre then some (s.drop pre.length).toString else none
+
+def parseCfg : List String → Option (Cfg × List String)
+  | kb :: kw :: db :: dw :: sl :: lua :: rest => do
+    let kb ← (field? "kb=" kb) >>= parseList
+    let kw ← (field? "kw=" kw) >>= parseList
+    let db ← (field? "db=" db) >>= parseList
+    let dw ← (field? "dw=" dw) >>= parseList
+    let sl ← (field? "sl=" sl) >>= parseList
+    let lua ← field? "lua=" lua
+    some ({ keyBlack := kb, keyWhite := kw, dbBlack := db, dbWhite := dw, slots := sl, lua := lua == "1" }, rest)
+  | _ => none
+
+/-- insertion sort of rendered entries (Go side: `sort.Strings`; all ASCII) -/
+def insertS (x : String) : List String → List String
+  | [] => [x]
+  | y :: ys => if x ≤ y then x :: y :: ys else y :: insertS x ys
+def sortS (l : List String) : List String := l.foldr insertS []
+
+def joinOrDash (l : List String) : String := if l.isEmpty then "-" else ",".intercalate l
+
+/-- an entry of the snapshot / keyspace: a key, or an aux field `lua` met while `db` is current -/
+inductive Ent
+  | key (db : Int) (key : Bytes) (slot : Nat)
+  | lua (db : Int)
+
+def parseEnt (s : String) : Option Ent :=
+  match s.splitOn ":" with
+  | ["k", d, k, sl] => do some (.key (← d.toInt?) (← ofHex k) (← sl.toNat?))
+  | ["l", d] => do some (.lua (← d.toInt?))
+  | _ => none
+
+def parseEnts (s : String) : Option (List Ent) :=
+  if s == "_" then some [] else (s.splitOn ",").mapM parseEnt
+
+/-- an element of a command stream: `select n`; a single-key command (a row (1,1,1) of the key table)
+    `cmd key v`; a command without a row in the key table `cmd arg` -/
+inductive Item
+  | sel (db : Int)
+  | one (cmd key : Bytes)
+  | bare (cmd arg : Bytes)
+
+def parseItem (s : String) : Option Item :=
+  match s.splitOn ":" with
+  | ["s", d] => do some (.sel (← d.toInt?))
+  | ["c", c, k] => do some (.one (← ofHex c) (← ofHex k))
+  | ["x", c, a] => do some (.bare (← ofHex c) (← ofHex a))
+  | _ => none
+
+def parseItems (s : String) : Option (List Item) :=
+  if s == "_" then some [] else (s.splitOn ",").mapM parseItem
+
+def render (db : Int) (k : Bytes) : String := s!"{db}:{hexOrDash k}"
+def renderCmd (db : Int) (cmd k : Bytes) : String :=
+  s!"{db}:{hexOrDash (cmd.map lowerAscii)}:{hexOrDash k}"
+/-- under `target.db` the database a forwarded command is tagged with is C03's subject: rendered `*` -/
+def starDb (tdb : Int) (s : String) : String :=
+  if tdb == -1 then s else "*" ++ (s.dropWhile (· != ':')).toString
+
+/-! spec predictions -/
+
+/-- `tdb` = `target.db` (-1: keep the source database number): where an arriving key lands; the
+    decision itself always reads the SOURCE database number -/
+def landing (tdb d : Int) : Int := if tdb == -1 then d else tdb
+
+def specKeys (p : Path) (cfg : Cfg) (tdb : Int) (es : List Ent) : List String :=
+  sortS (es.filterMap fun
+    | .key d k s =>
+      let ex := if p == .fullSync then excludedFullSync cfg d k s else excluded p cfg d k
+      if ex then none else some (render (landing tdb d) k)
+    | .lua _ => none)
+
+def luaCount (es : List Ent) (dropped : Int → Bool) : Nat :=
+  (es.filter fun | .lua d => !dropped d | _ => false).length
+
+/-- the command stream as the specification sees it: a command reaches the target iff neither its
+    `(db, key)` nor its name is excluded (`db` = the database selected last; before any `select` no
+    database number is known and only the key / name clauses apply) -/
+def specStream (cfg : Cfg) (dflt : Int) : Option Int → List Item → List String
+  | _, [] => []
+  | _, .sel n :: rest => specStream cfg dflt (some n) rest
+  | cur, .one c k :: rest =>
+    let dbx := match cur with | some d => dbExcluded cfg d | none => false
+    let ex := dbx || checkpointExcluded .incr cfg k || keyExcluded cfg k || cmdExcluded cfg c
+    let out := specStream cfg dflt cur rest
+    if ex then out else renderCmd (cur.getD dflt) c k :: out
+  | cur, .bare c a :: rest =>
+    let dbx := match cur with | some d => dbExcluded cfg d | none => false
+    let out := specStream cfg dflt cur rest
+    if dbx || cmdExcluded cfg c then out else renderCmd (cur.getD dflt) c a :: out
+
+/-! as-coded model of restore mode's command tail (what the fake target sees) -/
+
+/-- state: `bypass`, and the database selected ON THE TARGET connection (a forwarded `select`) -/
+def tailModel (cfg : Cfg) : Bool → Int → List Item → List String
+  | _, _, [] => []
+  | _, tdb, .sel n :: rest =>
+    let bp := filterDB cfg n
+    tailModel cfg bp (if bp then tdb else n) rest
+  | bp, tdb, .one c k :: rest =>
+    let out := tailModel cfg bp tdb rest
+    if restoreCmdDecision bp (c.map lowerAscii) then out else renderCmd tdb c k :: out
+  | bp, tdb, .bare c a :: rest =>
+    let out := tailModel cfg bp tdb rest
+    if restoreCmdDecision bp (c.map lowerAscii) then out else renderCmd tdb c a :: out
+
+def luaWhy (cfg : Cfg) (es : List Ent) (ls : Nat) : String :=
+  if isCheckpointKey nLua || keyExcluded cfg nLua then "key"
+  else if es.any (fun | .lua d => dbExcluded cfg d | _ => false) then "db"
+  else if slotExcluded cfg ls then "slot" else "none"
+
+def handle (line : String) : String :=
+  match line.splitOn " " with
+  | "unit" :: rest =>
+    match parseCfg rest with
+    | some (cfg, [d, k, sl, c]) =>
+      match d.toInt?, ofHex k, sl.toNat?, ofHex c with
+      | some d, some k, some sl, some c =>
+        s!"db={bit (dbExcluded cfg d)} key={bit (isCheckpointKey k || keyExcluded cfg k)} " ++
+        s!"slot={bit (slotExcluded cfg sl)} cmd={bit (cmdExcluded cfg c)}"
+      | _, _, _, _ => "badcase"
+    | _ => "badcase"
+  | "path" :: rest =>
+    match parseCfg rest with
+    | some (cfg, [tdb, ls, es, st]) =>
+      match (field? "tdb=" tdb) >>= String.toInt?, (field? "ls=" ls) >>= String.toNat?,
+            (field? "E=" es) >>= parseEnts, (field? "S=" st) >>= parseItems with
+      | some tdb, some ls, some es, some st =>
+        let specLua := luaCount es (fun _ => luaExcluded cfg)
+        s!"full={joinOrDash (specKeys .fullSync cfg tdb es)} fulllua={specLua} " ++
+        s!"restore={joinOrDash (specKeys .restore cfg tdb es)} restorelua={specLua} " ++
+        -- rump, fetch side: the key channel still carries the source database number
+        s!"rump={joinOrDash (specKeys .rump cfg (-1) es)} " ++
+        s!"incr={joinOrDash ((specStream cfg (-1) none st).map (starDb tdb))}" ++
+        s!" | fulllua={luaCount es (fun d => luaDecisionFullSync cfg (fun _ => ls) d)} " ++
+        s!"restorelua={luaCount es (fun d => luaDecisionRestore cfg d)} why={luaWhy cfg es ls}"
+      | _, _, _, _ => "badcase"
+    | _ => "badcase"
+  | "rump" :: rest =>
+    match parseCfg rest with
+    | some (cfg, [tdb, es]) =>
+      match (field? "tdb=" tdb) >>= String.toInt?, (field? "E=" es) >>= parseEnts with
+      | some tdb, some es => s!"rump={joinOrDash (specKeys .rump cfg tdb es)}"
+      | _, _ => "badcase"
+    | _ => "badcase"
+  | "tail" :: rest =>
+    match parseCfg rest with
+    | some (cfg, [st]) =>
+      match (field? "S=" st) >>= parseItems with
+      | some st => s!"tail={joinOrDash (specStream cfg 0 none st)} | tail={joinOrDash (tailModel cfg false 0 st)}"
+      | none => "badcase"
+    | _ => "badcase"
+  | ["rawslot", sl, s] =>
+    match (field? "sl=" sl) >>= parseList, s.toInt? with
+    | some l, some s => bit (filterSlot { slots := l } s)
+    | _, _ => "badcase"
+  | ["rawcmd", lua, c] =>
+    match field? "lua=" lua, ofHex c with
+    -- names as the specification spells them (= the source's, theorem `source_command_names`)
+    | some l, some c => bit (filterCommandsOf [nOpinfo] [nEval, nScript, nEvalsha] { lua := l == "1" } c)
+    | _, _ => "badcase"
+  | _ => "badcase"
+
 end RSVerif.Drive.C06
